@@ -100,6 +100,15 @@ func checkC13(c *Ctx) {
 		both := func(p, rr string) { P.WriteString(p); R.WriteString(rr) }
 		same := func(s string) { both(s, s) }
 		names := []string{"K_ONE", "K_TWO", "K_THREE", "walk_up", "Lbl", "cmdk"}
+		// constant names of every identifier shape: leading underscore, digits inside, multi-byte letters
+		switch i % 4 {
+		case 1:
+			names[0], names[1] = "_K_ONE", "K2_b"
+		case 2:
+			names[0], names[2] = "KÉ_ONE", "_"
+		case 3:
+			names[1], names[2] = "__k", "k"
+		}
 		pool := [][]string{{"1"}, {"5"}, {"0x10"}, {"VAR_TEMP_1"}, {"FLAG_X"}, {"ITEM_POTION"}, {"ITEM_NONE"}, {"1", "+", "2"}, {"(", "VAR_A", "+", "1", ")", "*", "2"}, {"TRAINER_ROXANNE"}}
 		redefine := i%25 == 24
 		// a use before any definition is not a use
